@@ -25,3 +25,5 @@ def run(ctx):
     c16.trim_set(ctx, P)
     sig.s15_4_version_alignment_verify(ctx, P)
     sig.s15_5_version_alignment_sign(ctx, P)
+    sig.s02_11_every_key_tries_every_signature(ctx, P)
+    sig.s02_9_parallel_slots(ctx, P)
